@@ -132,8 +132,15 @@ Lemma wf_tree_Create : forall d c, wf_tree (Create d c) = true ->
   t_kind d = K_create /\ t_kind (tdata c) <> K_section /\ wf_tree c = true.
 Proof.
   intros d c H. cbn [wf_tree] in H. apply andb_prop in H. destruct H as [H H3].
-  apply andb_prop in H. destruct H as [H1 H2].
+  apply andb_prop in H. destruct H as [H H2].
+  apply andb_prop in H. destruct H as [H1 _].
   apply Z.eqb_eq in H1. apply negb_true_iff in H2. apply Z.eqb_neq in H2. auto.
+Qed.
+
+Lemma wf_tree_Create_sub : forall d c, wf_tree (Create d c) = true -> is_SubT c = true.
+Proof.
+  intros d c H. cbn [wf_tree] in H. apply andb_prop in H. destruct H as [H _].
+  apply andb_prop in H. destruct H as [H _]. apply andb_prop in H. destruct H as [_ H]. exact H.
 Qed.
 
 Definition all_wf (l : list tree) : bool := forallb wf_tree l.
